@@ -729,8 +729,11 @@ class BaseInterpreter(Generic[TContext, TEvent]):
             "error": str(self.error) if self.error is not None else None,
             # 🕰️ Remembered history, so a restored machine can still honour a
             #    later transition to a history state.
+            # 🕰️ Keep the RECORDED order: restored states are re-entered in
+            #    list order, so re-sorting here made a restored interpreter
+            #    enter them in a different order than the original.
             "history": {
-                parent_id: sorted(node.id for node in nodes)
+                parent_id: [node.id for node in nodes]
                 for parent_id, nodes in self._history.items()
             },
             # 👶 Recursive child-actor snapshots, keyed by actor id.
